@@ -19,7 +19,7 @@ type c11Fam struct {
 }
 
 func c11Depth(rt *rapid.T, l string) int {
-	switch rapid.IntRange(0, 9).Draw(rt, l+"c") {
+	switch c11Uniform(rt, 10, l+"c") {
 	case 0, 1, 2:
 		return rapid.IntRange(1, 60).Draw(rt, l)
 	case 3, 4, 5:
@@ -27,7 +27,7 @@ func c11Depth(rt *rapid.T, l string) int {
 	case 6, 7:
 		return rapid.IntRange(2001, 20000).Draw(rt, l)
 	default:
-		return rapid.SampledFrom([]int{50000, 99990, 100001, 150000}).Draw(rt, l)
+		return c11Pick(rt, []int{50000, 99990, 100001, 150000}, l)
 	}
 }
 
@@ -40,7 +40,7 @@ var c11NestKinds = []string{"paren", "neg", "not", "xor", "index", "call", "func
 	"selector", "sliceexpr", "deref", "conv", "andand", "closurecall", "label", "select", "typeassert", "cmpchain", "shiftchain", "elseif", "rangenest", "deferlit"}
 
 func c11GenNest(rt *rapid.T) (string, []string) {
-	k := rapid.SampledFrom(c11NestKinds).Draw(rt, "nk")
+	k := c11Pick(rt, c11NestKinds, "nk")
 	n := c11Depth(rt, "n")
 	// keep the text below ~1 MB
 	max := map[string]int{"funclit": 30000, "funclitcall": 30000, "if": 50000, "ifelse": 30000, "for": 50000, "switch": 25000, "typfunc": 60000, "typstruct": 40000,
@@ -104,12 +104,12 @@ func c11GenNest(rt *rapid.T) (string, []string) {
 	case "typarray":
 		fmt.Fprintf(&b, "var x %sint\n\nfunc main() {\n\tprintln(len(x))\n}\n", c11Rep("[1]", n))
 	case "binleft":
-		op := rapid.SampledFrom([]string{"+", "-", "*", "|", "^", "&"}).Draw(rt, "op")
+		op := c11Pick(rt, []string{"+", "-", "*", "|", "^", "&"}, "op")
 		fmt.Fprintf(&b, "func main() {\n\ty := 1\n\tx := y%s\n\tprintln(x)\n}\n", c11Rep(" "+op+" y", n))
 	case "binright":
 		fmt.Fprintf(&b, "func main() {\n\ty := 1\n\tx := %sy%s\n\tprintln(x)\n}\n", c11Rep("y + (", n), c11Rep(")", n))
 	case "strcat":
-		lit := rapid.SampledFrom([]string{`"a"`, `"0123456789abcdef0123456789abcdef0123456789abcdef0123456789abcdef"`, "s"}).Draw(rt, "lit")
+		lit := c11Pick(rt, []string{`"a"`, `"0123456789abcdef0123456789abcdef0123456789abcdef0123456789abcdef"`, "s"}, "lit")
 		fmt.Fprintf(&b, "const s = \"xy\"\n\nfunc main() {\n\tx := %s%s\n\tprintln(len(x))\n}\n", lit, c11Rep(" + "+lit, n))
 	case "cmpchain":
 		fmt.Fprintf(&b, "func main() {\n\ty := true\n\tx := y%s\n\tprintln(x)\n}\n", c11Rep(" == y", n))
@@ -191,14 +191,14 @@ var c11ConstUses = []string{
 }
 
 func c11Num(rt *rapid.T, l string) int {
-	return rapid.SampledFrom([]int{0, 1, 2, 7, 8, 31, 32, 53, 62, 63, 64, 65, 100, 127, 128, 255, 256, 308, 309, 400, 511, 512, 513, 1000, 1023, 1024, 4096, 10000, 65536, 100000, 1000000, 10000000, 100000000, 1000000000, 2147483647}).Draw(rt, l)
+	return c11Pick(rt, []int{0, 1, 2, 7, 8, 31, 32, 53, 62, 63, 64, 65, 100, 127, 128, 255, 256, 308, 309, 400, 511, 512, 513, 1000, 1023, 1024, 4096, 10000, 65536, 100000, 1000000, 10000000, 100000000, 1000000000, 2147483647}, l)
 }
 
 func c11ConstExpr(rt *rapid.T, l string) string {
-	f := rapid.SampledFrom(c11ConstExprs).Draw(rt, l+"f")
+	f := c11Pick(rt, c11ConstExprs, l+"f")
 	if strings.Contains(f, "%s") {
-		n := rapid.SampledFrom([]int{1, 10, 18, 19, 20, 40, 100, 1000, 10000, 100000}).Draw(rt, l+"digits")
-		d := rapid.SampledFrom([]string{"0", "1", "7", "_1"}).Draw(rt, l+"digit")
+		n := c11Pick(rt, []int{1, 10, 18, 19, 20, 40, 100, 1000, 10000, 100000}, l+"digits")
+		d := c11Pick(rt, []string{"0", "1", "7", "_1"}, l+"digit")
 		return fmt.Sprintf(f, c11Rep(d, n))
 	}
 	args := make([]any, strings.Count(f, "%d"))
@@ -210,29 +210,29 @@ func c11ConstExpr(rt *rapid.T, l string) string {
 
 func c11GenConst(rt *rapid.T) (string, []string) {
 	e := c11ConstExpr(rt, "e")
-	if rapid.IntRange(0, 4).Draw(rt, "combine") == 0 {
-		op := rapid.SampledFrom([]string{"+", "-", "*", "/", "%", "<<", ">>", "&", "|", "==", "<"}).Draw(rt, "cop")
+	if c11Uniform(rt, 5, "combine") == 0 {
+		op := c11Pick(rt, []string{"+", "-", "*", "/", "%", "<<", ">>", "&", "|", "==", "<"}, "cop")
 		e = "(" + e + ") " + op + " (" + c11ConstExpr(rt, "e2") + ")"
 	}
-	use := rapid.SampledFrom(c11ConstUses).Draw(rt, "use")
+	use := c11Pick(rt, c11ConstUses, "use")
 	return "package main\n\n" + fmt.Sprintf(use, e), []string{c11Bound(e, 80), c11Bound(use, 40)}
 }
 
 // ---- string constant doubling and other compile-time growth
 
 func c11GenGrowth(rt *rapid.T) (string, []string) {
-	k := rapid.SampledFrom([]string{"conststr", "conststrlocal", "constmul", "arrayofarray", "arrtype", "structbig", "varstr", "constshl", "iota", "typealiaschain", "embedchain"}).Draw(rt, "gk")
-	n := rapid.SampledFrom([]int{2, 5, 10, 16, 20, 24, 28, 31, 34, 40, 64, 200, 2000}).Draw(rt, "n")
+	k := c11Pick(rt, []string{"conststr", "conststrlocal", "constmul", "arrayofarray", "arrtype", "structbig", "varstr", "constshl", "iota", "typealiaschain", "embedchain"}, "gk")
+	n := c11Pick(rt, []int{2, 5, 10, 16, 20, 24, 28, 31, 34, 40, 64, 200, 2000}, "n")
 	if k == "conststr" || k == "conststrlocal" || k == "varstr" {
 		// 16<<n bytes of constant string. The Go type checker materialises it
 		// outside any meter (known finding memory@typecheck): n in 23..27 is a
 		// tar pit of minutes per case that neither finishes soon nor crosses the
 		// memory cap soon, so it is skipped; the sizes that do cross the cap are
 		// drawn rarely, and only in the thorough tier.
-		big := os.Getenv("VERIF_TIER") == "thorough" && rapid.IntRange(0, 19).Draw(rt, "big") == 0
+		big := os.Getenv("VERIF_TIER") == "thorough" && c11Uniform(rt, 20, "big") == 0
 		switch {
 		case big:
-			n = rapid.SampledFrom([]int{28, 30, 34, 40, 59, 60, 64}).Draw(rt, "nbig")
+			n = c11Pick(rt, []int{28, 30, 34, 40, 59, 60, 64}, "nbig")
 		case n > 22:
 			n = 2 + n%21
 		}
@@ -258,7 +258,7 @@ func c11GenGrowth(rt *rapid.T) (string, []string) {
 		if k == "conststrlocal" {
 			fmt.Fprintf(&b, "\tprintln(len(s%d))\n}\n", n)
 		} else {
-			use := rapid.SampledFrom([]string{"println(len(s%d))", "x := s%d; println(len(x))", "println(s%d[0])", "println(s%d == s%d)", "var e interface{} = s%d; _ = e"}).Draw(rt, "use")
+			use := c11Pick(rt, []string{"println(len(s%d))", "x := s%d; println(len(x))", "println(s%d[0])", "println(s%d == s%d)", "var e interface{} = s%d; _ = e"}, "use")
 			use = strings.ReplaceAll(use, "%d", fmt.Sprint(n))
 			fmt.Fprintf(&b, "\nfunc main() {\n\t%s\n}\n", use)
 		}
@@ -284,19 +284,19 @@ func c11GenGrowth(rt *rapid.T) (string, []string) {
 		if n > 40 {
 			n = 40
 		}
-		m := rapid.SampledFrom([]int{2, 4, 16, 256}).Draw(rt, "m")
+		m := c11Pick(rt, []int{2, 4, 16, 256}, "m")
 		b.WriteString("type A0 [1]byte\n")
 		for i := 1; i <= n; i++ {
 			fmt.Fprintf(&b, "type A%d [%d]A%d\n", i, m, i-1)
 		}
-		use := rapid.SampledFrom([]string{"var x A%d\n\nfunc main() { println(len(x)) }\n", "func main() { var x A%d; println(len(x)) }\n", "func main() { x := new(A%d); println(x != nil) }\n",
-			"func main() { x := make([]A%d, 1); println(len(x)) }\n", "func main() { var x *A%d; println(x == nil) }\n", "func main() { var x, y A%d; println(x == y) }\n"}).Draw(rt, "use")
+		use := c11Pick(rt, []string{"var x A%d\n\nfunc main() { println(len(x)) }\n", "func main() { var x A%d; println(len(x)) }\n", "func main() { x := new(A%d); println(x != nil) }\n",
+			"func main() { x := make([]A%d, 1); println(len(x)) }\n", "func main() { var x *A%d; println(x == nil) }\n", "func main() { var x, y A%d; println(x == y) }\n"}, "use")
 		fmt.Fprintf(&b, use, n)
 	case "arrtype":
 		e := c11ConstExpr(rt, "len")
-		el := rapid.SampledFrom([]string{"byte", "int", "struct{}", "[0]int", "string", "[1 << 20]int"}).Draw(rt, "el")
-		use := rapid.SampledFrom([]string{"var x [%s]%s\n\nfunc main() { println(len(x)) }\n", "func main() { var x [%s]%s; println(len(x)) }\n", "func main() { x := new([%s]%s); println(len(x)) }\n",
-			"func main() { var x *[%s]%s; println(len(x)) }\n", "func main() { x := [%s]%s{}; println(len(x)) }\n", "func main() { var x [][%s]%s; x = append(x, [%[1]s]%[2]s{}); println(len(x)) }\n"}).Draw(rt, "use")
+		el := c11Pick(rt, []string{"byte", "int", "struct{}", "[0]int", "string", "[1 << 20]int"}, "el")
+		use := c11Pick(rt, []string{"var x [%s]%s\n\nfunc main() { println(len(x)) }\n", "func main() { var x [%s]%s; println(len(x)) }\n", "func main() { x := new([%s]%s); println(len(x)) }\n",
+			"func main() { var x *[%s]%s; println(len(x)) }\n", "func main() { x := [%s]%s{}; println(len(x)) }\n", "func main() { var x [][%s]%s; x = append(x, [%[1]s]%[2]s{}); println(len(x)) }\n"}, "use")
 		fmt.Fprintf(&b, use, e, el)
 	case "structbig":
 		if n > 2000 {
@@ -317,7 +317,7 @@ func c11GenGrowth(rt *rapid.T) (string, []string) {
 		fmt.Fprintf(&b, ")\n\nfunc main() {\n\tprintln(c%d > 0)\n}\n", n-1)
 	case "typealiaschain":
 		n *= 10
-		alias := rapid.SampledFrom([]string{"", "= "}).Draw(rt, "alias")
+		alias := c11Pick(rt, []string{"", "= "}, "alias")
 		b.WriteString("type T0 int\n")
 		for i := 1; i <= n; i++ {
 			fmt.Fprintf(&b, "type T%d %sT%d\n", i, alias, i-1)
@@ -357,7 +357,7 @@ var c11RecUses = []string{
 }
 
 func c11GenRecType(rt *rapid.T) (string, []string) {
-	ty := rapid.SampledFrom(c11RecTypes).Draw(rt, "ty")
+	ty := c11Pick(rt, c11RecTypes, "ty")
 	// only uses whose type names the declaration provides
 	var uses []string
 	for _, u := range c11RecUses {
@@ -371,8 +371,8 @@ func c11GenRecType(rt *rapid.T) (string, []string) {
 			uses = append(uses, u)
 		}
 	}
-	use := rapid.SampledFrom(uses).Draw(rt, "use")
-	where := rapid.SampledFrom([]string{"pkg", "pkg", "local"}).Draw(rt, "where")
+	use := c11Pick(rt, uses, "use")
+	where := c11Pick(rt, []string{"pkg", "pkg", "local"}, "where")
 	var src string
 	if where == "local" && !strings.Contains(ty, "func (") {
 		src = "package main\n\nfunc main() {\n\t" + strings.ReplaceAll(ty, "\n", "\n\t") + "\n\t" + use + "\n}\n"
@@ -403,8 +403,8 @@ func c11GenShadow(rt *rapid.T) (string, []string) {
 	var pkg, loc []string
 	var note []string
 	for i := 0; i < n; i++ {
-		name := rapid.SampledFrom(c11Predeclared).Draw(rt, fmt.Sprintf("name%d", i))
-		d := rapid.SampledFrom(c11ShadowDecls).Draw(rt, fmt.Sprintf("decl%d", i))
+		name := c11Pick(rt, c11Predeclared, fmt.Sprintf("name%d", i))
+		d := c11Pick(rt, c11ShadowDecls, fmt.Sprintf("decl%d", i))
 		decl := fmt.Sprintf(d, name)
 		decl = strings.ReplaceAll(decl, "%!(EXTRA string="+name+")", "")
 		note = append(note, decl)
@@ -414,7 +414,7 @@ func c11GenShadow(rt *rapid.T) (string, []string) {
 			loc = append(loc, decl+"; _ = "+name)
 		}
 	}
-	use := rapid.SampledFrom(c11ShadowUses).Draw(rt, "use")
+	use := c11Pick(rt, c11ShadowUses, "use")
 	var imports, decls []string
 	for _, p := range pkg {
 		if strings.HasPrefix(p, "import ") {
@@ -423,7 +423,7 @@ func c11GenShadow(rt *rapid.T) (string, []string) {
 			decls = append(decls, p)
 		}
 	}
-	fn := rapid.SampledFrom([]string{"main", "main", "main", "init"}).Draw(rt, "fn")
+	fn := c11Pick(rt, []string{"main", "main", "main", "init"}, "fn")
 	src := "package main\n\n" + strings.Join(imports, "\n") + "\n\n" + strings.Join(decls, "\n") + "\n\nfunc " + fn + "() {\n\t" + strings.Join(loc, "\n\t") + "\n\t" + use + "\n}\n"
 	if fn == "init" {
 		src += "\nfunc main() {}\n"
@@ -447,8 +447,8 @@ var c11InitProgs = []string{
 }
 
 func c11GenInit(rt *rapid.T) (string, []string) {
-	p := rapid.SampledFrom(c11InitProgs).Draw(rt, "p")
-	realm := rapid.IntRange(0, 3).Draw(rt, "realm") == 0
+	p := c11Pick(rt, c11InitProgs, "p")
+	realm := c11Uniform(rt, 4, "realm") == 0
 	if realm {
 		p = strings.ReplaceAll(p, "func init() { main() }", "func init() { init() }")
 		return "package initx\n\n" + p + "\n", []string{"realm", p}
@@ -462,15 +462,15 @@ func c11GenInit(rt *rapid.T) (string, []string) {
 	if strings.Contains(p, "var f = func() {") || strings.Contains(p, "var f func()") {
 		bodies = append(bodies, "f()")
 	}
-	body := rapid.SampledFrom(bodies).Draw(rt, "body")
+	body := c11Pick(rt, bodies, "body")
 	return "package main\n\n" + p + "\n\nfunc main() {\n\t" + body + "\n}\n", []string{"main", p, body}
 }
 
 // ---- giant composite literals
 
 func c11GenGiant(rt *rapid.T) (string, []string) {
-	k := rapid.SampledFrom([]string{"slice", "array", "map", "structs", "strings", "nested", "sparse", "args", "params", "returns", "cases", "fields", "assign", "vars", "funcs", "methods", "ifaces", "imports", "byteslit", "dupkeys"}).Draw(rt, "k")
-	n := rapid.SampledFrom([]int{10, 100, 1000, 5000, 20000, 60000}).Draw(rt, "n")
+	k := c11Pick(rt, []string{"slice", "array", "map", "structs", "strings", "nested", "sparse", "args", "params", "returns", "cases", "fields", "assign", "vars", "funcs", "methods", "ifaces", "imports", "byteslit", "dupkeys"}, "k")
+	n := c11Pick(rt, []int{10, 100, 1000, 5000, 20000, 60000}, "n")
 	var b strings.Builder
 	b.WriteString("package main\n\n")
 	seq := func(f func(i int) string, sep string) string {
@@ -505,8 +505,8 @@ func c11GenGiant(rt *rapid.T) (string, []string) {
 		}
 		fmt.Fprintf(&b, "func main() {\n\tx := [][]int{%s}\n\tprintln(len(x))\n}\n", seq(func(i int) string { return "{1, 2, 3, 4, 5, 6, 7, 8}" }, ", "))
 	case "sparse":
-		idx := rapid.SampledFrom([]string{"1 << 10", "1 << 20", "1 << 26", "1 << 30", "1 << 31", "1 << 40", "1<<63 - 1", "100000000"}).Draw(rt, "idx")
-		ty := rapid.SampledFrom([]string{"[]int", "[...]int", "[]byte", "[...]byte", "[]string", "[]struct{}", "[...]struct{}", "[][8]int"}).Draw(rt, "ty")
+		idx := c11Pick(rt, []string{"1 << 10", "1 << 20", "1 << 26", "1 << 30", "1 << 31", "1 << 40", "1<<63 - 1", "100000000"}, "idx")
+		ty := c11Pick(rt, []string{"[]int", "[...]int", "[]byte", "[...]byte", "[]string", "[]struct{}", "[...]struct{}", "[][8]int"}, "ty")
 		el := "1"
 		if strings.Contains(ty, "string") {
 			el = "\"a\""
@@ -632,10 +632,10 @@ var c11RecurProgs = []string{
 }
 
 func c11GenRecur(rt *rapid.T) (string, []string) {
-	p := rapid.SampledFrom(c11RecurProgs).Draw(rt, "p")
+	p := c11Pick(rt, c11RecurProgs, "p")
 	note := []string{c11Bound(p, 60)}
 	if strings.Contains(p, "%d") || strings.Contains(p, "%[1]d") {
-		n := rapid.SampledFrom([]int{10, 1000, 10000, 100000, 1000000, 100000000}).Draw(rt, "n")
+		n := c11Pick(rt, []int{10, 1000, 10000, 100000, 1000000, 100000000}, "n")
 		p = strings.ReplaceAll(fmt.Sprintf(p, n), "%!(EXTRA int="+fmt.Sprint(n)+")", "")
 		note = append(note, fmt.Sprint(n))
 	} else {
@@ -665,9 +665,22 @@ var c11AllocProgs = []string{
 }
 
 func c11GenAlloc(rt *rapid.T) (string, []string) {
-	p := rapid.SampledFrom(c11AllocProgs).Draw(rt, "p")
-	n := rapid.SampledFrom(c11AllocSizes).Draw(rt, "n")
-	ty := rapid.SampledFrom([]string{"byte", "int", "string", "struct{}", "[64]int", "interface{}", "bool", "[0]int", "float64", "*int", "[]int", "map[int]int", "struct{ a, b int; s string }", "[1 << 16]byte"}).Draw(rt, "ty")
+	p := c11Pick(rt, c11AllocProgs, "p")
+	sizes := c11AllocSizes
+	if os.Getenv("VERIF_TIER") != "thorough" {
+		// sizes just below the limit really allocate hundreds of MB (seconds
+		// each on a loaded machine): thorough tier only
+		sizes = nil
+		for _, z := range c11AllocSizes {
+			switch z {
+			case "1 << 27", "1 << 28", "1 << 29", "500000000", "499999000", "62500000", "62499000":
+			default:
+				sizes = append(sizes, z)
+			}
+		}
+	}
+	n := c11Pick(rt, sizes, "n")
+	ty := c11Pick(rt, []string{"byte", "int", "string", "struct{}", "[64]int", "interface{}", "bool", "[0]int", "float64", "*int", "[]int", "map[int]int", "struct{ a, b int; s string }", "[1 << 16]byte"}, "ty")
 	body := strings.ReplaceAll(fmt.Sprintf(p, n, ty), "%!(EXTRA string="+ty+")", "")
 	if i := strings.Index(body, "%!(EXTRA"); i >= 0 {
 		body = body[:i]
